@@ -17,11 +17,11 @@ type compRef struct {
 
 type modSet struct {
 	prefixes []string
-	all    bool
-	comps  []compRef
-	allocs []*ssa.Alloc
-	seen   map[string]bool
-	aseen  map[*ssa.Alloc]bool
+	all      bool
+	comps    []compRef
+	allocs   []*ssa.Alloc
+	seen     map[string]bool
+	aseen    map[*ssa.Alloc]bool
 }
 
 func (m *modSet) addComp(key, sort string) {
